@@ -35,7 +35,7 @@ pub fn oneshot(variant: &str, m: &[u8]) -> Vec<u8> {
 pub fn b2b_typed(bits: usize, key: &[u8], m: &[u8]) -> Vec<u8> {
     macro_rules! go {
         ($b:literal) => {{
-            let mut out = vec![0u8; ($b + 7) / 8];
+            let mut out = dirty(($b + 7) / 8);
             let c = if key.is_empty() { blake2b::Context::<$b>::new() } else { blake2b::Context::<$b>::new_keyed(key) };
             c.update(m).finalize_at(&mut out);
             out
@@ -120,7 +120,7 @@ pub fn b2b_typed(bits: usize, key: &[u8], m: &[u8]) -> Vec<u8> {
 pub fn b2s_typed(bits: usize, key: &[u8], m: &[u8]) -> Vec<u8> {
     macro_rules! go {
         ($b:literal) => {{
-            let mut out = vec![0u8; ($b + 7) / 8];
+            let mut out = dirty(($b + 7) / 8);
             let c = if key.is_empty() { blake2s::Context::<$b>::new() } else { blake2s::Context::<$b>::new_keyed(key) };
             c.update(m).finalize_at(&mut out);
             out
@@ -291,17 +291,17 @@ macro_rules! b2_at_hobj {
                 self.reset_with_key(k)
             }
             fn finr(&mut self) -> Vec<u8> {
-                let mut o = vec![0u8; ($b + 7) / 8];
+                let mut o = dirty(($b + 7) / 8);
                 self.finalize_reset_at(&mut o);
                 o
             }
             fn finrk(&mut self, k: &[u8]) -> Vec<u8> {
-                let mut o = vec![0u8; ($b + 7) / 8];
+                let mut o = dirty(($b + 7) / 8);
                 self.finalize_reset_with_key_at(k, &mut o);
                 o
             }
             fn fin(self: Box<Self>) -> Vec<u8> {
-                let mut o = vec![0u8; ($b + 7) / 8];
+                let mut o = dirty(($b + 7) / 8);
                 (*self).finalize_at(&mut o);
                 o
             }
@@ -337,17 +337,17 @@ impl HObj for B2bDyn {
         self.0.reset_with_key(k)
     }
     fn finr(&mut self) -> Vec<u8> {
-        let mut o = vec![0u8; self.1];
+        let mut o = dirty(self.1);
         self.0.finalize_reset_at(&mut o);
         o
     }
     fn finrk(&mut self, k: &[u8]) -> Vec<u8> {
-        let mut o = vec![0u8; self.1];
+        let mut o = dirty(self.1);
         self.0.finalize_reset_with_key_at(k, &mut o);
         o
     }
     fn fin(self: Box<Self>) -> Vec<u8> {
-        let mut o = vec![0u8; self.1];
+        let mut o = dirty(self.1);
         self.0.finalize_at(&mut o);
         o
     }
@@ -374,17 +374,17 @@ impl HObj for B2sDyn {
         self.0.reset_with_key(k)
     }
     fn finr(&mut self) -> Vec<u8> {
-        let mut o = vec![0u8; self.1];
+        let mut o = dirty(self.1);
         self.0.finalize_reset_at(&mut o);
         o
     }
     fn finrk(&mut self, k: &[u8]) -> Vec<u8> {
-        let mut o = vec![0u8; self.1];
+        let mut o = dirty(self.1);
         self.0.finalize_reset_with_key_at(k, &mut o);
         o
     }
     fn fin(self: Box<Self>) -> Vec<u8> {
-        let mut o = vec![0u8; self.1];
+        let mut o = dirty(self.1);
         self.0.finalize_at(&mut o);
         o
     }
@@ -567,7 +567,7 @@ pub fn run(op: &str, a: &[&str]) -> Vec<String> {
             let n = usz(a[0]);
             let k = expand(a[1]);
             let m = expand(a[2]);
-            let mut o = vec![0u8; n];
+            let mut o = dirty(n);
             let c = if k.is_empty() { blake2b::ContextDyn::new(n) } else { blake2b::ContextDyn::new_keyed(n, &k) };
             c.update(&m).finalize_at(&mut o);
             vec![hex(&o)]
@@ -576,7 +576,7 @@ pub fn run(op: &str, a: &[&str]) -> Vec<String> {
             let n = usz(a[0]);
             let k = expand(a[1]);
             let m = expand(a[2]);
-            let mut o = vec![0u8; n];
+            let mut o = dirty(n);
             let c = if k.is_empty() { blake2s::ContextDyn::new(n) } else { blake2s::ContextDyn::new_keyed(n, &k) };
             c.update(&m).finalize_at(&mut o);
             vec![hex(&o)]
@@ -586,7 +586,7 @@ pub fn run(op: &str, a: &[&str]) -> Vec<String> {
             let n = usz(a[0]);
             let k = expand(a[1]);
             let m = expand(a[2]);
-            let mut o = vec![0u8; usz(a[3])];
+            let mut o = dirty(usz(a[3]));
             if op == "b2b_at" {
                 let c = if k.is_empty() { blake2b::ContextDyn::new(n) } else { blake2b::ContextDyn::new_keyed(n, &k) };
                 c.update(&m).finalize_at(&mut o);
@@ -599,12 +599,12 @@ pub fn run(op: &str, a: &[&str]) -> Vec<String> {
         "b2bt" => vec![hex(&b2b_typed(usz(a[0]), &expand(a[1]), &expand(a[2])))],
         "b2st" => vec![hex(&b2s_typed(usz(a[0]), &expand(a[1]), &expand(a[2])))],
         "b2blegacy" => {
-            let mut o = vec![0u8; usz(a[0])];
+            let mut o = dirty(usz(a[0]));
             cryptoxide::blake2b::Blake2b::blake2b(&mut o, &expand(a[2]), &expand(a[1]));
             vec![hex(&o)]
         }
         "b2slegacy" => {
-            let mut o = vec![0u8; usz(a[0])];
+            let mut o = dirty(usz(a[0]));
             cryptoxide::blake2s::Blake2s::blake2s(&mut o, &expand(a[2]), &expand(a[1]));
             vec![hex(&o)]
         }
@@ -614,7 +614,7 @@ pub fn run(op: &str, a: &[&str]) -> Vec<String> {
             let n = usz(a[1]);
             let k = expand(a[2]);
             let m = expand(a[3]);
-            let mut o = vec![0u8; n];
+            let mut o = dirty(n);
             if a[0] == "b" {
                 let mut v: Vec<Embedded<blake2b::ContextDyn>> = Vec::new();
                 for _ in 0..3 {
